@@ -11,7 +11,8 @@ import numpy
 
 
 def fkey(tok):
-    v = numpy.float32(float(tok))
+    with numpy.errstate(over='ignore'):
+        v = numpy.float32(float(tok))
     if numpy.isnan(v):
         return 'nan'
     r = repr(float(v))
@@ -373,6 +374,44 @@ def library_node_order(nodes):
     return [n for n in nodes if n['id'] in loaded]
 
 
+def bound_pattern(scene, D):
+    """the geometry instances a traversal of the scene meets, in order (children in document order, an
+    instance_node standing for the node it names), each with the material and vertex-input map its
+    <instance_material> elements give to every primitive of the geometry (by material symbol; the last
+    instance_material / bind_vertex_input of a name wins)"""
+    geoms = {g['id']: g for g in D['geometries']}
+    named = {n['id']: n for n in D['nodes'] if n['id']}
+    named.update({n['id']: n for n in scene['nodes'] if n['id']})
+    out = []
+
+    def walk(N, depth=0):
+        if depth > 50:
+            return
+        for it in N['items']:
+            if it['t'] == 'node':
+                walk(it['node'], depth + 1)
+            elif it['t'] == 'instance_node':
+                walk(named[it['url']], depth + 1)
+            elif it['t'] == 'geometry':
+                bysym = {}
+                for m in it['materials']:
+                    bysym[m['symbol']] = m
+                prims = []
+                for p in geoms[it['url']]['prims']:
+                    m = bysym.get(p['material']) if p['material'] is not None else None
+                    if m is None:
+                        prims.append({'material': None, 'inputmap': None})
+                    else:
+                        im = {}
+                        for sem, insem, st in m['binds']:
+                            im[sem] = [sem, insem, st]
+                        prims.append({'material': m['target'], 'inputmap': sorted(im.values(), key=repr)})
+                out.append({'geometry': it['url'], 'prims': prims})
+    for n in scene['nodes']:
+        walk(n)
+    return out
+
+
 def expected(D):
     P = {'errors': [], 'asset': asset_pattern(D['asset'])}
     P['images'] = [{'id': i['id'], 'path': i['path']} for i in D['images']]
@@ -384,7 +423,8 @@ def expected(D):
     P['lights'] = [light_pattern(x) for x in D['lights']]
     P['cameras'] = [camera_pattern(x) for x in D['cameras']]
     P['nodes'] = [node_pattern(n) for n in library_node_order(D['nodes'])]
-    P['scenes'] = [{'id': s['id'], 'nodes': [node_pattern(n) for n in s['nodes']]} for s in D['scenes']]
+    P['scenes'] = [{'id': s['id'], 'nodes': [node_pattern(n) for n in s['nodes']], 'bound_geometries': bound_pattern(s, D)}
+                   for s in D['scenes']]
     P['scene'] = {'id': D['scene'], 'same': True} if D['scene'] is not None else None
     return P
 
@@ -450,6 +490,8 @@ def clause_of(path):
             return 'source'
         return 'geometry-' + parts[-1]
     if head in ('nodes', 'scenes'):
+        if 'bound_geometries' in parts:
+            return 'scene-bound-material' if ('material' in parts or 'inputmap' in parts) else 'scene-bound-geometries'
         for key in ('transforms', 'target', 'materials', 'name', 'id', 'children'):
             if key in parts:
                 return 'node-' + key
